@@ -66,6 +66,73 @@ fn install_fake(injector: &mut InjectorPP, t: usize) {
     }
 }
 
+// a target and a never-faked sibling that are guaranteed to share one code page (one 64-byte block)
+std::arch::global_asm!(
+    ".section .text.e2pair,\"ax\",@progbits",
+    ".balign 64",
+    ".globl e2_pair_target",
+    "e2_pair_target:",
+    "mov eax, 7",
+    "ret",
+    ".balign 16, 0xcc",
+    ".globl e2_pair_sibling",
+    "e2_pair_sibling:",
+    "mov eax, 9",
+    "ret",
+    ".balign 64, 0xcc",
+    ".text",
+);
+extern "C" {
+    fn e2_pair_target() -> u32;
+    fn e2_pair_sibling() -> u32;
+}
+unsafe extern "C" fn fake_pair() -> u32 {
+    std::hint::black_box(100)
+}
+
+/// C03 under concurrency: a thread that holds no guard and calls a function that is never faked, on
+/// the same code page as a function another thread fakes and un-fakes.  The bystander must get the
+/// sibling's own value on every call, under every schedule (in particular between the OS calls of
+/// an installation or a restoration).
+fn bystander_scenario(exit: Exit, calls: usize, lifetimes: usize) -> Scenario {
+    let mut bodies: Vec<Box<dyn FnOnce() + Send>> = Vec::new();
+    bodies.push(Box::new(move || {
+        for _ in 0..lifetimes {
+            let r = catch_unwind(AssertUnwindSafe(|| {
+                let mut injector = InjectorPP::new();
+                injector
+                    .when_called(inj::func!(unsafe{} extern "C" fn(e2_pair_target)() -> u32))
+                    .will_execute_raw(inj::func!(unsafe{} extern "C" fn(fake_pair)() -> u32));
+                sched::point("h:installed");
+                let v = unsafe { e2_pair_target() };
+                if v != 100 {
+                    viol("injector-holder-sees-foreign-behaviour", format!("the faked function returned {v} to the thread that faked it"));
+                }
+                if exit == Exit::Panic {
+                    panic!("user panic");
+                }
+                drop(injector);
+            }));
+            if let Err(p) = r {
+                if !payload_text(p.as_ref()).starts_with("user panic") {
+                    viol("guard-acquisition-or-use-panicked", format!("unexpected panic: {}", payload_text(p.as_ref())));
+                }
+            }
+        }
+    }));
+    bodies.push(Box::new(move || {
+        for i in 0..calls {
+            sched::point("h:bystander-call");
+            let v = unsafe { e2_pair_sibling() };
+            if v != 9 {
+                viol("bystander-sees-foreign-behaviour", format!("call {i} of the never-faked sibling returned {v} (its own value is 9)"));
+            }
+            log(format!("b{i}"));
+        }
+    }));
+    Scenario { bodies, events: 0, sym: vec![], start_after: vec![] }
+}
+
 #[derive(Clone, Copy, PartialEq, Eq, Debug)]
 enum Kind {
     Injector,
@@ -301,18 +368,21 @@ fn c06m_scenario(arm: usize, args: &[u32]) -> Scenario {
             viol("scope-exit-verdict", format!("macro arm #{arm}: {matching} matching call(s) with times: {n}: scope exit {}", if r.is_ok() { "was silent" } else { "panicked" }));
         }
     }));
-    for &a in args {
+    for (ci, &a) in args.iter().enumerate() {
         bodies.push(Box::new(move || {
             sched::point("h:before-call");
             match call_matrix(arm, a) {
                 Ok(true) => {
                     ADMITTED.fetch_add(1, Ordering::SeqCst);
+                    log(format!("c{ci}:admitted"));
                 }
                 Ok(false) => {
                     ODD.fetch_add(1, Ordering::SeqCst);
+                    log(format!("c{ci}:original"));
                 }
                 Err(()) => {
                     REJECTED.fetch_add(1, Ordering::SeqCst);
+                    log(format!("c{ci}:rejected"));
                 }
             }
         }));
@@ -386,7 +456,7 @@ fn c06_scenario(n: usize, calls: &[usize], symmetric: bool, arm: usize) -> Scena
             }
         }
     }));
-    for &c in calls {
+    for (ci, &c) in calls.iter().enumerate() {
         bodies.push(Box::new(move || {
             for _ in 0..c {
                 sched::point("h:before-call");
@@ -401,12 +471,15 @@ fn c06_scenario(n: usize, calls: &[usize], symmetric: bool, arm: usize) -> Scena
                 match r {
                     Ok(0xFA) => {
                         ADMITTED.fetch_add(1, Ordering::SeqCst);
+                        log(format!("c{ci}:admitted"));
                     }
                     Ok(_) => {
                         ODD.fetch_add(1, Ordering::SeqCst);
+                        log(format!("c{ci}:other"));
                     }
                     Err(_) => {
                         REJECTED.fetch_add(1, Ordering::SeqCst);
+                        log(format!("c{ci}:rejected"));
                     }
                 }
             }
@@ -446,6 +519,8 @@ fn run_case(c: &Value) -> Value {
     let mk = || -> Scenario {
         if check == "c04" {
             c04_scenario(&spec_from_json(&c["spec"]))
+        } else if check == "c03b" {
+            bystander_scenario(if c["exit"].as_str() == Some("p") { Exit::Panic } else { Exit::Scope }, c["calls"].as_u64().unwrap() as usize, c["lifetimes"].as_u64().unwrap() as usize)
         } else if check == "c06m" {
             let args: Vec<u32> = c["args"].as_array().unwrap().iter().map(|x| x.as_u64().unwrap() as u32).collect();
             c06m_scenario(c["arm"].as_u64().unwrap() as usize, &args)
@@ -577,7 +652,13 @@ fn compositions(k: usize, parts: usize) -> Vec<Vec<usize>> {
 fn cases(check: &str, tier: &str) -> Vec<Value> {
     let mut v = Vec::new();
     let ks = kinds();
-    if check == "c04" {
+    if check == "c03b" {
+        for exit in ["s", "p"] {
+            for (calls, lifetimes) in [(1u64, 1u64), (2, 1), (3, 1), (2, 2)] {
+                v.push(json!({"check": "c03b", "exit": exit, "calls": calls, "lifetimes": lifetimes, "bound": 64, "cap": if tier == "thorough" { 2_000_000 } else { 100_000 }}));
+            }
+        }
+    } else if check == "c04" {
         // T=2, one round each: unbounded (bound 64 = every schedule)
         for a in &ks {
             for b in &ks {
